@@ -20,7 +20,7 @@ import numpy as np
 import core
 import gen
 
-PROOF_MODULES = ["UnytProofs.C09"]
+PROOF_MODULES = ["UnytProofs.C09", "UnytProofs.C09Units"]
 EPS = 2.0 ** -52
 LAW_RTOL = 2.0 ** -36  # inverse / path / formula laws on the real code (several roundings + pow)
 SAME_RTOL = 2.0 ** -44  # entry points and in-place vs copy: the same arithmetic up to re-association
@@ -34,7 +34,7 @@ UNIT_POOL = {
     "rate": ["Hz", "kHz", "GHz", "THz", "1/s", "1/hr", "1/ms", "1/yr", "min**-1"],
     "spatial_frequency": ["1/m", "1/cm", "m**-1", "1/angstrom", "1/km", "1/nm", "1/ft", "1/pc"],
     "velocity": ["m/s", "cm/s", "km/s", "km/hr", "mile/hr", "c", "pc/Myr", "AU/yr", "ft/s"],
-    "dimensionless": ["dimensionless", "", "percent"],
+    "dimensionless": ["dimensionless", "", "percent", "mol", "Zsun", "cm/m", "mmol"],
     "density": ["kg/m**3", "g/cm**3", "Msun/pc**3", "g/L", "lb/ft**3", "mg/mL", "amu/cm**3", "Msun/kpc**3"],
     "number_density": ["1/m**3", "cm**-3", "1/pc**3", "1/L", "1/mm**3", "1/ft**3", "km**-3"],
     "flux": ["W/m**2", "erg/(s*cm**2)", "kW/m**2", "kg/s**3", "g/s**3", "Lsun/pc**2", "mW/cm**2", "J/(hr*ft**2)"],
@@ -269,6 +269,83 @@ class Sweep:
         kws = ";".join(f"{k}={core.f2b(v)}" for k, v in kw.items())
         self.mlines.append("\t".join(["c09.convert", mode, eq if eq is not None else "-"] + fa + fb_ + [str(core.f2b(xv)), kws]))
         self.mexpect.append((tag, expect, tol))
+
+    # ---- the unit-carrying run of every chain (correspondence with `Trace.runU`) -------------
+    def chains(self):
+        """`cls(in_place=…)._convert` called directly on an input in some unit of the source
+        dimension: data, `base_value` and dimensions of what it returns (copy) / leaves in the
+        array (in place), against the model's call-by-call unit-carrying run of the regenerated chain"""
+        from unyt import Unit, unyt_array
+
+        chk, rng = self.chk, self.rng
+        self.clines, self.cexpect = [], []
+        extra = 2 if self.tier == "quick" else 10
+        for eq, cls in self.reg.items():
+            accepted = self.param_names(cls)
+            for da, db in itertools.permutations(list(cls._dims), 2):
+                a = self.dn(da)
+                pa = self.pool(a, da)
+                if not pa:
+                    continue
+                units = [pa[0]] + [rng.choice(pa) for _ in range(extra)]
+                cu = compound_unit(rng, da)
+                if cu is not None:
+                    units.append(cu)
+                if a == "dimensionless":
+                    units = list(dict.fromkeys(units + pa))  # every scaled spelling of a pure number
+                for ua in units:
+                    kw = {}
+                    if accepted and rng.random() < 0.5:
+                        kw = {p: round(rng.uniform(0.5, 2.4), 3) for p in accepted if rng.random() < 0.7}
+                    kws = ";".join(f"{k}={core.f2b(v)}" for k, v in kw.items())
+                    try:
+                        scale = float(Unit(ua).base_value)
+                    except Exception:
+                        continue
+                    val = values_for(rng, eq, a, scale, self.C, self.tier, n=1)[0]
+                    for mode in ("copy", "inplace"):
+                        x = unyt_array(np.array([val], dtype="float64"), ua)
+                        try:
+                            r = cls(in_place=(mode == "inplace"))._convert(x, db, **kw)
+                            res = r if mode == "copy" else x
+                            live = (float(np.asarray(res.d).ravel()[0]), float(res.units.base_value), gen.dim_vec(res.units.dimensions))
+                        except Exception as e:
+                            live = "err:" + core.exc_name(e)
+                        chk.case(f"chain|{eq}|{gen.dim_vec(da)}->{gen.dim_vec(db)}|{ua}|{mode}|{sorted(kw)}", None)
+                        chk.count("chain:" + ("returned" if not isinstance(live, str) else live))
+                        self.clines.append("\t".join(["c09.chain", eq, mode, gen.dim_vec(da), gen.dim_vec(db), str(core.f2b(val)),
+                                                      str(core.f2b(scale)), kws]))
+                        tol = LAW_RTOL * lorentz_cond(eq, a, val * scale, self.C)
+                        self.cexpect.append((f"{eq} {a}->{self.dn(db)} [{ua}] {mode} {kw}", live, tol))
+
+    def check_chains(self, model):
+        chk = self.chk
+        if not self.clines:
+            return
+        try:
+            replies = model.ask(self.clines)
+        except Exception as e:
+            chk.disagree("driver", repr(e))
+            return
+        for rep, (tag, live, tol) in zip(replies, self.cexpect):
+            if isinstance(live, str):
+                if rep[0] == "ok":
+                    chk.disagree("c09.chain", f"{tag}: model {rep}, _convert raised {live}")
+                continue
+            if rep[0] != "ok":
+                chk.disagree("c09.chain", f"{tag}: model {rep}, _convert gave data {live[0]!r} scale {live[1]!r}")
+                continue
+            md, ms, mdim = core.b2f(rep[1]), core.b2f(rep[2]), rep[3]
+            if mdim != live[2]:
+                chk.disagree("c09.chain", f"{tag}: model dimension {mdim}, _convert's result has {live[2]}")
+                continue
+            msi, lsi = md * ms, live[0] * live[1]
+            if not (math.isfinite(lsi) and math.isfinite(msi) and relerr(msi, lsi) <= tol):
+                chk.disagree("c09.chain", f"{tag}: SI magnitude model {msi!r} (data {md!r} x scale {ms!r}), _convert {lsi!r} "
+                                          f"(data {live[0]!r} x scale {live[1]!r}), tolerance {tol:.3g}")
+                continue
+            same = relerr(ms, live[1]) <= 1e-12
+            chk.count("chain-split:" + ("same" if same else "differs"))
 
     # ---- covered requests ---------------------------------------------------------------
     def covered(self, n_units, with_quantity=True):
@@ -961,6 +1038,9 @@ def run(tier, seed):
     sw.reducible_inputs()
     sw.lorentz_endpoints()
     sw.has_equivalent()
+    sw.chains()
+    if model is not None:
+        sw.check_chains(model)
 
     # ---- correspondence: the model's numbers and outcomes ------------------------------------
     if model is not None and sw.mlines:
